@@ -100,7 +100,11 @@ ResampleClause(e) ==
   LET tot == K!CumTo(e.c, Len(e.c)) IN
   CASE tot # e.tot \/ Len(e.idx) # Len(e.rn)       -> "resample_shape"
     [] \E j \in DOMAIN e.rn : ~(0 < e.rn[j] /\ e.rn[j] < e.rd) -> "resample_r_range"
-    [] \E j \in DOMAIN e.rn : e.idx[j] + 1 # K!Idx(e.c, tot, e.rn[j], e.rd) -> "resample_index"
+    \* the resampled population is a MULTISET: particle i is drawn as often as uniforms fall into its cumulative-weight
+    \* cell; the order in which the draws are laid out is not part of the particle model
+    [] \E i \in 0..Len(e.c) : Cardinality({j \in DOMAIN e.rn : e.idx[j] + 1 = i})
+                                # Cardinality({j \in DOMAIN e.rn : K!Idx(e.c, tot, e.rn[j], e.rd) = i}) -> "resample_index"
+    [] \E j \in DOMAIN e.idx : e.idx[j] + 1 \notin 1..Len(e.c) -> "resample_index"
     [] OTHER -> "ok"
 
 Clause(cfg, s, e, x) ==
